@@ -11,6 +11,7 @@ fresh connection IDs.
 import Uquic.Proofs.ConnIDTokens
 import Uquic.Proofs.ConnIDAccept
 import Uquic.Proofs.ConnIDClose
+import Uquic.Proofs.ConnIDRpt
 
 namespace Uquic.Props.C16
 open Uquic.Model.ConnID Uquic.Proofs.ConnID
@@ -55,6 +56,40 @@ theorem retired_never_reused (dest : Bytes) (ops1 ops2 : List Op) (hv : ValidRun
   refine (retired_stay_out hi1 (retiredIn ((Manager.new dest).run ops1).2) ?_ hv2 s (Or.inl (mem_retiredIn.mpr hs))).2
   intro x hx
   exact h1 x (Or.inr (mem_retiredIn.mp hx))
+
+/-- Retire Prior To is honoured (RFC 9000 §5.1.2, §19.15): when `Add` has processed a NEW_CONNECTION_ID frame without
+    closing the connection for a frame-level reason (result ok, or CONNECTION_ID_LIMIT_ERROR raised after processing) and the
+    frame was not answered by one of the early exits (duplicate of a path-probing ID; reordered / already retired
+    sequence number, which is retired at once), no sequence number below the frame's Retire Prior To is in use any more
+    — neither queued, nor assigned to a probed path, nor active: the code rotates away from an active ID below Retire
+    Prior To in the same call, a replacement always exists (at least the frame's own connection ID). -/
+theorem retire_prior_to_honoured {m : Manager} (h : Reach m) (seq rpt : Nat) (id tok : Bytes) (draw : Nat)
+    (hv : rpt ≤ seq) (hz : m.activeID ≠ [])
+    (hp : (m.probing.any fun pe => pe.2.seq == seq) = false) (hr : m.retireNow seq = false)
+    (hok : (m.addFrame seq rpt id tok draw).2.2 = .ok ∨ (m.addFrame seq rpt id tok draw).2.2 = .err .limitError) :
+    ∀ s ∈ inUse (m.addFrame seq rpt id tok draw).1, rpt ≤ s := by
+  have F := addFrame_state m seq rpt id tok draw
+  rw [F.1]
+  apply add_rpt seq rpt id tok draw (reach_inv h) hv hz hp hr
+  -- the result of `add` was ok in both cases
+  have hnl := add_no_limit m seq rpt id tok draw
+  unfold Manager.addFrame at hok
+  simp only at hok
+  split at hok
+  · assumption
+  · rename_i hne
+    rcases hok with hok | hok
+    · exact absurd hok hne
+    · exact absurd hok hnl
+
+/-- In particular for every frame that carries a sequence number above everything the manager holds or has retired
+    (a frame that is neither a retransmission nor reordered): its Retire Prior To is always honoured. -/
+theorem retire_prior_to_honoured_new_highest {m : Manager} (h : Reach m) (seq rpt : Nat) (id tok : Bytes) (draw : Nat)
+    (hv : rpt ≤ seq) (hz : m.activeID ≠ []) (hnew : Enter m seq)
+    (hok : (m.addFrame seq rpt id tok draw).2.2 = .ok ∨ (m.addFrame seq rpt id tok draw).2.2 = .err .limitError) :
+    ∀ s ∈ inUse (m.addFrame seq rpt id tok draw).1, rpt ≤ s :=
+  let e := enter_no_early_exit (reach_inv h) hnew
+  retire_prior_to_honoured h seq rpt id tok draw hv hz e.1 e.2 hok
 
 /-- Stateless reset tokens: after any history the add/remove callbacks have registered exactly (as a multiset) the
     tokens of the active and the path-probing connection IDs. -/
@@ -254,6 +289,17 @@ example : inUse ((Manager.new [9]).run (sampleOps.take 7)).1 = [4] ∧
     retiredIn ((Manager.new [9]).run (sampleOps.take 7)).2 = [0, 2, 1] := by decide
 
 example : regAfter [] ((Manager.new [9]).run (sampleOps.take 5)).2 = [[2], [1]] := by decide
+
+/-- the seeded history: a probing ID (1) held while the active ID rotates twice (highestRetired = 2), then Retire
+    Prior To 2: sequence number 1 is retired and its token removed -/
+example :
+    let m1 := ((Manager.new [9]).run [.new 1 0 [1] [1] 0, .new 2 0 [2] [2] 0, .new 3 0 [3] [3] 0, .path 1, .hsDone, .get 0,
+      .new 4 0 [4] [4] 0]).1
+    -- enough packets sent for the second rotation
+    let m := ({ m1 with sinceChange := m1.perID }.get 0).1
+    m.highestRetired = 2 ∧ inUse m = [3, 4, 1] ∧
+    (m.addFrame 5 2 [5] [5] 0).2.1 = [.retire 1, .rmTok [1]] ∧ inUse (m.addFrame 5 2 [5] [5] 0).1 = [3, 4, 5] := by
+  decide
 
 /-- a generator history: limit 4, two retirements (one of sequence number 0), expiry -/
 def sampleGOps : List GOp := [.setMax 4, .retire 1 [7] 50, .retire 0 [7] 60, .hsDone 70, .removeRetired 55]
